@@ -29,7 +29,7 @@ pub enum Out {
     Err(String),
 }
 
-fn run_line(line: &str) -> String {
+fn run_line_inner(line: &str) -> String {
     let toks: Vec<&str> = line.split_whitespace().collect();
     if toks.is_empty() {
         return "SKIP".into();
@@ -46,6 +46,25 @@ fn run_line(line: &str) -> String {
         Ok(Some(Out::Err(k))) => format!("ERR {}", k),
         Ok(None) => "BADOP".into(),
         Err(_) => "PANIC".into(),
+    }
+}
+
+/// every op runs on its own thread under a watchdog: an op that does not return within the limit is reported as
+/// `HANG` (its thread is abandoned and dies with the process)
+fn run_line(line: &str, limit: std::time::Duration) -> String {
+    let (tx, rx) = std::sync::mpsc::channel();
+    let owned = line.to_string();
+    let builder = std::thread::Builder::new().stack_size(64 * 1024 * 1024);
+    let h = builder.spawn(move || {
+        let r = run_line_inner(&owned);
+        let _ = tx.send(r);
+    });
+    if h.is_err() {
+        return "CRASH".into();
+    }
+    match rx.recv_timeout(limit) {
+        Ok(r) => r,
+        Err(_) => "HANG".into(),
     }
 }
 
@@ -75,12 +94,17 @@ fn main() {
             let stdin = std::io::stdin();
             let stdout = std::io::stdout();
             let mut out = std::io::BufWriter::new(stdout.lock());
+            let secs: u64 = std::env::var("VERIF_OP_TIMEOUT").ok().and_then(|v| v.parse().ok()).unwrap_or(60);
+            let limit = std::time::Duration::from_secs(secs);
             for line in stdin.lock().lines() {
                 let line = line.unwrap();
-                let r = run_line(&line);
+                let r = run_line(&line, limit);
                 writeln!(out, "{}", r).unwrap();
             }
             out.flush().unwrap();
+            drop(out);
+            // abandoned (hung) worker threads must not keep the process alive
+            std::process::exit(0);
         }
         _ => {
             eprintln!("usage: harness dump | run");
